@@ -596,3 +596,227 @@ pub fn gen_deleg(files: &BTreeMap<String, syn::File>, out: &mut String) {
     rows.sort();
     writeln!(out, "(* impls.rs, impl_zeroize.rs, lib.rs :: the bodies of the trait impls for GenericArray that delegate to the slice *)\nDefinition gen_delegations : list (string * deleg) :=\n  [{}].", rows.join(";\n   ")).unwrap();
 }
+
+// ------------------------------------------------------------------ lifetimes of reference-returning signatures (T1)
+
+#[derive(Clone, Debug, PartialEq)]
+enum Lt {
+    Named(usize),
+    Static,
+    Elided,
+}
+
+struct LtCtx {
+    names: Vec<String>,
+}
+impl LtCtx {
+    fn idx(&mut self, n: &str) -> usize {
+        if let Some(i) = self.names.iter().position(|x| x == n) {
+            i
+        } else {
+            self.names.push(n.to_string());
+            self.names.len() - 1
+        }
+    }
+    fn fresh(&mut self) -> usize {
+        let n = format!("'_elided{}", self.names.len());
+        self.idx(&n)
+    }
+    fn of(&mut self, l: Option<&syn::Lifetime>) -> Lt {
+        match l {
+            None => Lt::Elided,
+            Some(l) if l.ident == "static" => Lt::Static,
+            Some(l) if l.ident == "_" => Lt::Elided,
+            Some(l) => Lt::Named(self.idx(&l.ident.to_string())),
+        }
+    }
+}
+
+/// every reference (and every lifetime argument of a path type) inside `t`, outermost first
+fn refs_in(t: &Type, cx: &mut LtCtx, self_ty: Option<&Type>, assoc: &BTreeMap<String, Type>, depth: usize, out: &mut Vec<(Lt, bool)>) {
+    if depth > 6 {
+        return;
+    }
+    match t {
+        Type::Reference(r) => {
+            let l = cx.of(r.lifetime.as_ref());
+            out.push((l, r.mutability.is_some()));
+            // a reference to a reference does not add a second tie for our purposes
+        }
+        Type::Tuple(tu) => {
+            for e in &tu.elems {
+                refs_in(e, cx, self_ty, assoc, depth + 1, out);
+            }
+        }
+        Type::Paren(p) => refs_in(&p.elem, cx, self_ty, assoc, depth + 1, out),
+        Type::Path(p) => {
+            // Self / Self::Assoc
+            if p.path.segments.first().map(|s| s.ident == "Self").unwrap_or(false) {
+                if p.path.segments.len() == 1 {
+                    if let Some(st) = self_ty {
+                        refs_in(st, cx, None, assoc, depth + 1, out);
+                    }
+                    return;
+                }
+                if p.path.segments.len() == 2 {
+                    if let Some(a) = assoc.get(&p.path.segments[1].ident.to_string()) {
+                        let a = a.clone();
+                        refs_in(&a, cx, self_ty, assoc, depth + 1, out);
+                    }
+                    return;
+                }
+            }
+            let seg = last_seg(&p.path);
+            let is_mut_iter = seg.ident == "IterMut";
+            for a in seg_args(seg) {
+                match a {
+                    GenericArgument::Lifetime(l) => {
+                        let lt = cx.of(Some(l));
+                        out.push((lt, is_mut_iter));
+                    }
+                    GenericArgument::Type(inner) => {
+                        // Result<&X, E>, Option<&X>, ... but not the payload types of containers we own
+                        if ["Result", "Option"].contains(&seg.ident.to_string().as_str()) {
+                            refs_in(inner, cx, self_ty, assoc, depth + 1, out);
+                        }
+                    }
+                    _ => {}
+                }
+            }
+        }
+        _ => {}
+    }
+}
+
+pub fn gen_lifetimes(files: &BTreeMap<String, syn::File>, out: &mut String) {
+    out.push_str("From Coq Require Import String ZArith List.\nFrom GA Require Import Base Sigs.\nImport ListNotations.\n\n");
+    let mut rows: Vec<String> = vec![];
+    let mut id = 1;
+    for fname in ["lib.rs", "impls.rs", "iter.rs", "sequence.rs"] {
+        let Some(file) = files.get(fname) else { continue };
+        for it in &file.items {
+            let Item::Impl(im) = it else { continue };
+            let base = self_base(&im.self_ty);
+            if base != "GenericArray" && base != "GenericArrayIter" {
+                continue;
+            }
+            let trait_name = im.trait_.as_ref().map(|t| last_seg(&t.1).ident.to_string());
+            // associated types of this impl
+            let mut assoc: BTreeMap<String, Type> = BTreeMap::new();
+            for ii in &im.items {
+                if let ImplItem::Type(t) = ii {
+                    assoc.insert(t.ident.to_string(), t.ty.clone());
+                }
+            }
+            for ii in &im.items {
+                let ImplItem::Fn(f) = ii else { continue };
+                if f.sig.unsafety.is_some() {
+                    continue;
+                }
+                if trait_name.is_none() && !matches!(f.vis, syn::Visibility::Public(_)) {
+                    continue;
+                }
+                let mut cx = LtCtx { names: vec![] };
+                let mut ins: Vec<(Lt, bool)> = vec![];
+                let mut has_self_ref = false;
+                let mut self_lt: Option<Lt> = None;
+                for a in &f.sig.inputs {
+                    match a {
+                        syn::FnArg::Receiver(r) => {
+                            if r.colon_token.is_some() {
+                                // self: &'a GenericArray<..>
+                                let mut v = vec![];
+                                refs_in(&r.ty, &mut cx, Some(&im.self_ty), &assoc, 0, &mut v);
+                                if let Some(first) = v.first() {
+                                    has_self_ref = true;
+                                    self_lt = Some(first.0.clone());
+                                }
+                                ins.extend(v);
+                            } else if let Some((_, lt)) = &r.reference {
+                                let l = cx.of(lt.as_ref());
+                                has_self_ref = true;
+                                self_lt = Some(l.clone());
+                                ins.push((l, r.mutability.is_some()));
+                            } else {
+                                // by-value self: the Self type may itself be a reference (&'a GenericArray)
+                                let mut v = vec![];
+                                refs_in(&im.self_ty, &mut cx, None, &assoc, 0, &mut v);
+                                if let Some(first) = v.first() {
+                                    has_self_ref = true;
+                                    self_lt = Some(first.0.clone());
+                                }
+                                ins.extend(v);
+                            }
+                        }
+                        syn::FnArg::Typed(t) => refs_in(&t.ty, &mut cx, Some(&im.self_ty), &assoc, 0, &mut ins),
+                    }
+                }
+                // every elided input lifetime is a distinct fresh one
+                let mut ins2: Vec<(usize, bool)> = vec![];
+                for (l, m) in ins.iter_mut() {
+                    if *l == Lt::Elided {
+                        *l = Lt::Named(cx.fresh());
+                    }
+                    if let Lt::Named(i) = l {
+                        ins2.push((*i, *m));
+                    }
+                }
+                if let Some(Lt::Elided) = self_lt {
+                    // the receiver was the first input
+                    self_lt = ins.first().map(|x| x.0.clone());
+                }
+                let mut outs: Vec<(Lt, bool)> = vec![];
+                if let syn::ReturnType::Type(_, ty) = &f.sig.output {
+                    refs_in(ty, &mut cx, Some(&im.self_ty), &assoc, 0, &mut outs);
+                }
+                if outs.is_empty() {
+                    continue;
+                }
+                // elision of output lifetimes
+                let mut bad = None;
+                let input_lts: Vec<usize> = {
+                    let mut v: Vec<usize> = ins2.iter().map(|x| x.0).collect();
+                    v.dedup();
+                    v.sort();
+                    v.dedup();
+                    v
+                };
+                for (l, _) in outs.iter_mut() {
+                    if *l == Lt::Elided {
+                        if has_self_ref && f.sig.receiver().is_some() {
+                            *l = self_lt.clone().unwrap_or(Lt::Elided);
+                        } else if input_lts.len() == 1 {
+                            *l = Lt::Named(input_lts[0]);
+                        } else {
+                            bad = Some("elided output lifetime cannot be resolved");
+                        }
+                    }
+                }
+                let name = format!("{}::{}{}", base_with_ref(&im.self_ty), trait_name.as_ref().map(|t| format!("{}::", t)).unwrap_or_default(), f.sig.ident);
+                if let Some(e) = bad {
+                    println!("ERROR GenLifetimes.v {}: {}", name, e);
+                    continue;
+                }
+                let fmt = |v: &Vec<(Lt, bool)>| -> String {
+                    v.iter()
+                        .map(|(l, m)| match l {
+                            Lt::Named(i) => format!("mkRf (LtNamed {}) {}", i, m),
+                            _ => format!("mkRf LtStatic {}", m),
+                        })
+                        .collect::<Vec<_>>()
+                        .join("; ")
+                };
+                rows.push(format!("(\"{}\", mkSig {} [{}] [{}] [] [])", name, id, fmt(&ins), fmt(&outs)));
+                id += 1;
+            }
+        }
+    }
+    writeln!(out, "(* every safe public / trait-impl function of GenericArray and GenericArrayIter whose result contains a\n   reference or a lifetime-carrying iterator, after lifetime elision: references among the arguments and in the result *)\nDefinition gen_signatures : list (String.string * sig) :=\n  [{}]%string.", rows.join(";\n   ")).unwrap();
+}
+
+fn base_with_ref(t: &Type) -> String {
+    match t {
+        Type::Reference(r) => format!("&{}{}", if r.mutability.is_some() { "mut " } else { "" }, base_with_ref(&r.elem)),
+        _ => self_base(t),
+    }
+}
